@@ -359,6 +359,8 @@ func getLocalAddresses(c diam.Conn) ([]datatype.Address, error) {
 	hostIPs := strings.Split(addr, "/")
 	addresses := make([]datatype.Address, 0, len(hostIPs))
 	for _, ipStr := range hostIPs {
+		// IPv6 addresses are printed in brackets, e.g. [2001:db8::1]:3868
+		ipStr = strings.TrimSuffix(strings.TrimPrefix(ipStr, "["), "]")
 		ip := net.ParseIP(ipStr)
 		if ip != nil {
 			if ip.IsLoopback() {
